@@ -31,6 +31,8 @@ pub enum Word {
     ShortCluster(Vec<u8>),
     /// prefix of a subcommand name of the level
     SubPrefix(u8, u8),
+    /// cluster of real value-less short flags followed by a byte that is not UTF-8
+    ShortClusterBadTail(Vec<u8>),
 }
 
 #[derive(Clone, Debug, Hash, Serialize, Deserialize, PartialEq)]
@@ -201,6 +203,8 @@ struct Printed {
     index: usize,
     level_path: Vec<usize>,
     word: String,
+    /// the cursor word as bytes (differs from `word` only for words that are not UTF-8)
+    word_bytes: Vec<u8>,
 }
 
 fn resolve_level<'a>(spec: &'a CmdSpec, path: &[(u8, u8)]) -> (Vec<&'a CmdSpec>, Vec<String>) {
@@ -315,6 +319,21 @@ fn print_intent(spec: &CmdSpec, il: &IntentLine) -> Option<Printed> {
             }
             s
         }
+        Word::ShortClusterBadTail(picks) => {
+            let flags: Vec<char> = named.iter().filter(|a| !a.takes_values() && !matches!(a.action, Action::Help | Action::HelpShort | Action::HelpLong | Action::Version)).filter_map(|a| a.short).collect();
+            if flags.is_empty() || picks.is_empty() {
+                return None;
+            }
+            let mut s = String::from("-");
+            for p in picks.iter().take(2) {
+                s.push(flags[*p as usize % flags.len()]);
+            }
+            let mut bytes = s.clone().into_bytes();
+            bytes.push(0xff);
+            let index = args.len();
+            args.push(B(bytes.clone()).os());
+            return Some(Printed { args, index, level_path: Vec::new(), word: String::from_utf8_lossy(&bytes).to_string(), word_bytes: bytes });
+        }
         Word::SubPrefix(pick, cut) => {
             let names: Vec<&String> = ents.iter().filter(|e| e.id.starts_with("command::")).flat_map(|e| e.visible.iter()).collect();
             if names.is_empty() {
@@ -332,7 +351,8 @@ fn print_intent(spec: &CmdSpec, il: &IntentLine) -> Option<Printed> {
     let index = args.len();
     args.push(OsString::from(&word));
     let level_path = Vec::new();
-    Some(Printed { args, index, level_path, word })
+    let word_bytes = word.clone().into_bytes();
+    Some(Printed { args, index, level_path, word, word_bytes })
 }
 
 fn short_flag_before(p: &Printed, chain_len: usize) -> bool {
@@ -391,7 +411,14 @@ fn gen_word(rng: &mut Rng) -> Word {
         2 => Word::Dash,
         3 => Word::DashDash,
         4 | 5 | 6 => Word::LongPrefix(rng.below(32) as u8, rng.below(16) as u8),
-        7 => Word::ShortCluster((0..rng.urange(1, 3)).map(|_| rng.below(16) as u8).collect()),
+        7 => {
+            let picks = (0..rng.urange(1, 3)).map(|_| rng.below(16) as u8).collect();
+            if rng.chance(1, 5) {
+                Word::ShortClusterBadTail(picks)
+            } else {
+                Word::ShortCluster(picks)
+            }
+        }
         _ => Word::SubPrefix(rng.below(16) as u8, rng.below(16) as u8),
     }
 }
@@ -976,8 +1003,9 @@ fn check_intent(sc: &CompSc, line: &Line, p: &Printed, list: &[CompletionCandida
             continue;
         }
         let v = c.get_value().to_string_lossy().to_string();
-        if !v.starts_with(word) {
-            return Some(("candidate-does-not-extend-word", id.split("::").next().unwrap_or("").to_string(), format!("candidate {v:?} ({id}) does not extend the word")));
+        if !c.get_value().as_bytes().starts_with(&p.word_bytes) {
+            let site = if matches!(il.word, Word::ShortClusterBadTail(_)) { "short-cluster-with-non-utf8-tail".to_string() } else { id.split("::").next().unwrap_or("").to_string() };
+            return Some(("candidate-does-not-extend-word", site, format!("candidate {v:?} ({id}) does not extend the word")));
         }
         let auto = id == "arg::help" || id == "arg::version" || id == "command::help";
         if !auto {
